@@ -26,15 +26,34 @@ Fixpoint trim_right_sp (s : list byte) : list byte :=
               end
   end.
 
-(* the lc function of the nocase collation on (valid UTF-8) bytes *)
+(* the lc function of the nocase collation: A-Z to a-z, byte by byte *)
 Definition lower_byte (c : byte) : byte :=
   let z := b2z c in if (65 <=? z) && (z <=? 90) then z2b (z + 32) else c.
+
+(* nocaseCompare's loop over the common length: Some c = decided by a pair of folded bytes; None = the lengths
+   decide (one text ended, or both have a NUL byte at this position: sqlite3StrNICmp stops there) *)
+Fixpoint nocase_loop (a b : list byte) : option comparison :=
+  match a, b with
+  | x :: a', y :: b' =>
+    let ca := b2z (lower_byte x) in
+    let cb := b2z (lower_byte y) in
+    if negb (ca =? cb) then Some (Z.compare ca cb)
+    else if ca =? 0 then None
+    else nocase_loop a' b'
+  | _, _ => None
+  end.
+
+Definition nocase_cmp (a b : list byte) : comparison :=
+  match nocase_loop a b with
+  | Some c => c
+  | None => Z.compare (len a) (len b)
+  end.
 
 Definition collate_cmp (c : collation) (a b : list byte) : comparison :=
   match c with
   | CBinary => bytes_cmp a b
   | CRtrim => bytes_cmp (trim_right_sp a) (trim_right_sp b)
-  | CNocase => bytes_cmp (map lower_byte a) (map lower_byte b)
+  | CNocase => nocase_cmp a b
   end.
 
 Definition cmp_float64 (a b : Z) : Z :=
